@@ -305,7 +305,6 @@ class Crossing:
             self.hit_body = inner
             break
         self.hit_index_updates = []
-        self.conj_src = conj
         self.conj = [inline(c, self.alias) for c in conj]
         # index expressions used on the vertex arrays
         idx = []
@@ -524,7 +523,6 @@ def r151(ctx, repo):
     # (d) division protected
     denoms = [n for n in ast.walk(expr) if isinstance(n, ast.BinOp)
               and isinstance(n.op, ast.Div)]
-    first_y = min(i for i, c in enumerate(cr.conj) if c in cr.y_conj)
     xi = cr.conj.index(xc)
     cdiv = re.search(r"^#\s*cython:\s*cdivision\s*=\s*True", repo.src(GEO),
                      re.M) is not None
@@ -539,7 +537,6 @@ def r151(ctx, repo):
            "the division by (y_b - y_a) can be evaluated for a horizontal "
            "edge (straddle test not first, cdivision off)",
            node=hit, label="division guarded")
-    del first_y
 
     # (e) edge enumeration
     bad = None
@@ -1157,9 +1154,6 @@ def r153(ctx, repo):
     if len(tmpl) < 3:
         raise AnalysisError("PolygonFilter.save: line templates lost")
     # reader: head detection and dispatch loop
-    heads = [c for c in find_calls(load, attr="startswith")
-             if c.args and const_str(c.args[0]) and not names_in(
-                 c.func.value) & {"var"}]
     disp = None
     for lp in walk(load):
         if isinstance(lp, ast.For) and isinstance(lp.target, ast.Tuple) \
@@ -1227,7 +1221,6 @@ def r153(ctx, repo):
             except _NoEval as e:
                 raise AnalysisError(f"_load: dispatch test "
                                     f"`{short(test, 40)}`: {e}")
-        ok = which is not None or not else_raises
         key = literal_of(kparts).strip()
         ctx.ob("R15.3", which is not None,
                f"key '{key}' written by save is dispatched by _load"
@@ -1236,7 +1229,6 @@ def r153(ctx, repo):
                + ("(raises KeyError: the file cannot be loaded)"
                   if else_raises else "(silently dropped)"),
                node=n, key=f"{POLY}::PolygonFilter.save::key {key}")
-        del ok
         if which is not None:
             matched.setdefault(which, []).append(key)
             handlers[key] = (branches[which][1], n, kparts, vparts)
@@ -1629,6 +1621,10 @@ MUTANTS = [
                       '"point{:08d} = {:.17f} {:.17f}"', s), "R15.3"),
     ("header prefix not stripped", POLY,
      ('.strip("Polygon []"))', '.strip("[]"))'), "R15.3"),
+    ("float format back to .15e (F15 returns)", "dclab/polygon_filter.py",
+     ("{:.16e} {:.16e}", "{:.15e} {:.15e}"), "R15.3"),
+    ("split at every '=' (F15b returns)", "dclab/polygon_filter.py",
+     ('li.split("=", 1)', 'li.split("=")'), "R15.3"),
 ]
 
 TWINS = [
